@@ -529,3 +529,39 @@ func VerifH_C14_tsCmp() {
 		vf.Reach("ts-matched")
 	}
 }
+
+// C14.H1b: field operators on multi-byte text: character sets are sets of characters, not of bytes.
+func VerifH_C14_fieldOpsUnicode() {
+	cases := []struct {
+		op            string
+		caseSensitive bool
+		value, data   string
+		want          bool
+	}{
+		{"contains_any", true, "«»", "5 °C", false}, // shares the byte 0xC2 with ° but no character
+		{"contains_any", true, "«»", "say «hi»", true},
+		{"contains_any", true, "ёЁ", "привет", false}, // other Cyrillic letters share the lead byte
+		{"contains_any", true, "ёЁ", "ёлка", true},
+		{"contains_any", true, "€!", "–", false},
+		{"contains_any", true, "€!", "5 €", true},
+		{"contains", true, "é", "café", false}, // composed vs decomposed: different bytes
+		{"contains", true, "лк", "ёлка", true},
+		{"prefix", true, "ёл", "ёлка", true},
+		{"suffix", true, "ка", "ёлка", true},
+		{"equal", true, "ёлка", "ёлка", true},
+		{"equal", true, "ёлка", "елка", false},
+	}
+	c := cases[vf.Choose("case", len(cases))]
+	node, err := NewFieldOpNode(c.op, "f", c.caseSensitive, [][]byte{[]byte(c.value)})
+	if err != nil {
+		vf.Fail("constructor-rejects-valid-rule")
+		return
+	}
+	got := node.Check(verifData{[]byte(c.data)})
+	if vf.Param("twin", 0) == 1 {
+		vf.Assert(got != c.want, "field-op-semantics-on-characters")
+		return
+	}
+	vf.Assert(got == c.want, "field-op-semantics-on-characters")
+	vf.Reach("unicode-case-checked")
+}
